@@ -116,6 +116,18 @@ func c15Prov(c *core.Ctx) {
 				okN = okN && rc.ReachableOnlyVia(fn, nonZero)
 			case strings.HasSuffix(s, ".HeaderByNumber(a.l1Client, ctx, a.blockFinality)#0.Number)") && strings.HasPrefix(s, "(*math/big.Int).Uint64("):
 				okN = okN && rc.ReachableOnlyVia(fn, hdrOK)
+			case s == "const(0)":
+				// a placeholder travelling with an error (after a helper was expanded in place): it must come only from
+				// the failed header lookup, and the syncer is not queried on that path
+				hdrErr := core.NilEdgesRes(fn, core.ExtractOf(hdr, 1), false)
+				ok0 := len(hdrErr) > 0 && rc.ReachableOnlyVia(fn, hdrErr)
+				for _, he := range hdrErr {
+					start, env := core.AfterEdge(he)
+					if (&core.Walk{Target: func(x ssa.Instruction) bool { return x == ssa.Instruction(info) }}).From(start, env) != nil {
+						ok0 = false
+					}
+				}
+				okN = okN && ok0
 			default:
 				okN = false
 			}
